@@ -208,14 +208,29 @@ func runC0405(cfg *config, res *monitor.Result) {
 			}
 			nonTrivial := len(bridge.SortedFieldNumbers(c.Msg.ProtoReflect())) > 0
 			// second pass: the same contents held in the "empty but allocated" Go representation
-			for pass := 0; pass < 2; pass++ {
+			for pass := 0; pass < 3; pass++ {
 				emptyNonNil = pass == 1
+				nilElems = pass == 2
 				repTag := ""
 				if emptyNonNil {
 					if c.Class == "random" && ci%4 != 0 {
-						break
+						continue
 					}
 					repTag = "empty-nonnil:"
+				}
+				if nilElems {
+					// Google V2 only: golang/protobuf V1 and gogo refuse a nil element ("repeated field has nil element"),
+					// for them it is not a message value at all.
+					if t.pkg.Flavour != "gv2" {
+						break
+					}
+					// only for values that really hold an empty element in a repeated message field
+					nilElemsPoked = 0
+					if _, err := build(t, c.Msg); err != nil || nilElemsPoked == 0 {
+						break
+					}
+					repTag = "nil-elements:"
+					classes[t.pkg.Flavour+"/"+string(t.md.Name())+"/nil-elements"]++
 				}
 				evals++
 				if isC04 {
@@ -297,7 +312,7 @@ func runC0405(cfg *config, res *monitor.Result) {
 					}
 				}
 			}
-			emptyNonNil = false
+			emptyNonNil, nilElems = false, false
 			if nonTrivial {
 				cls := c.Class
 				if c.Field != "" {
